@@ -30,10 +30,18 @@ def _calls_in(facts, q):
 def inlinable_helper(facts, f, call, single_use=True):
     """the helper called by `call` (in f) when it may be inlined: an in-repo free function in the same file with a body, not
     recursive, called from this one place only, with as many arguments as parameters"""
-    if not call.get('callee_in_repo') or call.get('obj') is not None or call.get('ck') == 'operator':
+    if not call.get('callee_in_repo') or call.get('ck') == 'operator':
         return None
+    on_this = False
+    if call.get('obj') is not None:
+        # a member function called on this very object (this->helper(..)) from a member function of the same class
+        o = strip_casts(call['obj'])
+        if o is None or o.get('k') != 'this' or not f.get('rec'):
+            return None
+        on_this = True
     hs = [h for h in facts.functions if h['q'] == call.get('callee') and h.get('body') is not None and h['tmpl'] in ('none', 'inst') and
-          h['file'] == f['file'] and h.get('kind') not in ('lambda', 'method', 'ctor', 'dtor')]
+          h['file'] == f['file'] and h.get('kind') not in ('lambda', 'ctor', 'dtor') and
+          ((on_this and h.get('rec') == f.get('rec')) or (not on_this and h.get('kind') != 'method'))]
     if len(hs) != 1:
         return None
     h = hs[0]
